@@ -114,4 +114,23 @@ def run(out, tier, seed):
                 sample_filter=lambda t: sum(len(e["dlv"]) for e in t["events"]) > 4)
 
 
-replay = P.replay_world
+def replay(out, path):
+    """statement shapes (TraceXformStmts) through the statement driver, everything else through the scripted world"""
+    import json
+    import os
+    from .. import core
+    doc = json.load(open(path))
+    if doc.get("signature", {}).get("family") != "FS2":
+        return P.replay_world(out, path)
+    c = doc["case"]["case"]
+    work = core.scratch("c02r-")
+    jin, jout = os.path.join(work, "in.json"), os.path.join(work, "out.json")
+    json.dump([{"id": c["id"], "st": c["st"], "I": c["I"]}], open(jin, "w"))
+    core.run_driver("harness.drivers.stmt_driver", [jin, jout, work])
+    t = core.run_tlc("TraceXformStmts", "TraceXformStmts.cfg", env={"TRACE_FILE": jout}, workers=1, timeout=600)
+    out.add_tlc("TraceXformStmts[replay]", t)
+    run = json.load(open(jout))[0]
+    for tup in t.tagged("FAIL"):
+        out.judge({"clause": tup[2], "stmt": run["st"]["s"], "family": "FS2"}, {"case": run, "at": tup[3]})
+    out.traces += 1
+    out.samples.append({"replayed": path, "events": run["events"], "stores": run["stores"]})
